@@ -78,3 +78,25 @@ Definition check_case (c : case) : list (nat * string) := check_steps 0 (c_init 
 
 Definition run_cases (cs : list case) : list (nat * nat * string) :=
   concat (imap (λ i c, (λ p, (i, p.1, p.2)) <$> check_case c) cs).
+
+(** * Synthetic logs: replay (and compaction) of an arbitrary event list vs Go *)
+Record logcase := LogCase {
+  lc_log : list event;
+  lc_snap : osnap_or_err;                               (* Go's replay of the log *)
+  lc_compact : option (list event * osnap_or_err) }.    (* Go's compactEvents + replay of that *)
+
+Definition obs_tags (a b : osnap) : list string :=
+  cmp_tasks (os_tasks a) (os_tasks b)
+  ++ tag_if (negb (bool_decide (os_ready_order a = os_ready_order b))) "ClaimOrder".
+
+Definition check_logcase (c : logcase) : list string :=
+  cmp_snap (replay (lc_log c)) (lc_snap c)
+  ++ match lc_compact c, replay (lc_log c) with
+     | Some (cevs, csnap), Ok g =>
+         tag_if (negb (bool_decide (compact_events g = cevs))) "CompactEvents"
+         ++ cmp_snap (replay (compact_events g)) csnap
+     | _, _ => []
+     end.
+
+Definition run_logcases (cs : list logcase) : list (nat * string) :=
+  concat (imap (λ i c, (λ t, (i, t)) <$> check_logcase c) cs).
